@@ -70,6 +70,16 @@ impl Prop for C18 {
     fn cases(&self, tier: Tier, _build: &str) -> u32 {
         if tier == Tier::Quick { 4_000 } else { 30_000 }
     }
+    /// Huffman trees with the deepest code shapes (one chain of 16 levels; two chains of 13
+    /// levels whose codes differ in the first digit): per-query state keyed by a code word
+    fn fixed_cases(&self, tier: Tier) -> Vec<ThreadCase> {
+        crate::props::seqexact::deep_code_cases("C02", tier)
+            .into_iter()
+            .enumerate()
+            .filter(|(i, _)| *i != 1)
+            .map(|(_, c)| ThreadCase { base: AnyCase::Seq(c), threads: 4, rounds: 1, budget: 8 })
+            .collect()
+    }
     fn assumptions(&self) -> Vec<String> {
         vec!["thread interleavings are chosen by the OS scheduler: sampled, not enumerated".into()]
     }
